@@ -47,6 +47,7 @@ type govWorld struct {
 	randoms []ident // funded, no role at genesis
 	fresh   []ident // no account at genesis
 	byAddr  map[string]ident
+	labels  map[string]string // hex address -> display name of module accounts
 	entropy int64
 }
 
@@ -100,6 +101,9 @@ func genGovWorld(rt *rapid.T, splitOwners bool) *govWorld {
 func (w *govWorld) name(a sdk.Address) string {
 	if id, ok := w.byAddr[hex.EncodeToString(a)]; ok {
 		return id.name
+	}
+	if l, ok := w.labels[hex.EncodeToString(a)]; ok {
+		return l
 	}
 	h := hex.EncodeToString(a)
 	if len(h) > 8 {
